@@ -55,6 +55,8 @@ package sessions
 //@ ensures[session-only-from-successful-decrypt] ret0 != nil ==> ret1(Decrypt) == nil && recv(Decrypt) == c && arg(Decrypt, 0) == data
 //@     && ret(msgpack.Unmarshal) == nil && ret1 == nil
 //@ ensures[error-means-no-session] ret1 != nil ==> ret0 == nil
+//@ prop C13 C19
+//@ ensures[no-error-means-a-session] ret1 == nil ==> ret0 != nil
 
 // ------------------------------------------------------------------ C12 / C13: the session's lock operations are the store lock's
 //@ func (*SessionState).ObtainLock
